@@ -29,6 +29,7 @@ import (
 	"verif/internal/corpus"
 	"verif/internal/ev"
 	"verif/internal/hbref"
+	"verif/internal/synthfont"
 )
 
 func harfbuzzGID(g uint32) harfbuzz.GID { return harfbuzz.GID(g) }
@@ -63,6 +64,7 @@ const (
 	fMyanmarLocl      = "C05-myanmar-locl-ccmp-per-syllable"
 	fZawgyiMorx       = "C05-zawgyi-morx-dumber-shaper"
 	fAttachDepth      = "C05-attachment-chain-depth-limit"
+	fNesting          = "C05-lookup-nesting-level"
 )
 
 // unconditional (skew / loader / unspecified) classes
@@ -290,8 +292,7 @@ func pairClass0Fallthrough(fe *fontEntry, g1, g2 uint32) bool {
 	return false
 }
 
-// pairClass0Consumed: some PairPos format 2 subtable with a second value record covers g1 and gives
-// g2 class 0.
+// pairClass0Consumed: some PairPos format 2 subtable covers g1 and gives g2 class 0.
 func pairClass0Consumed(fe *fontEntry, g1, g2 uint32) bool {
 	for _, l := range fe.face.GPOS.Lookups {
 		for _, st := range l.Subtables {
@@ -300,7 +301,7 @@ func pairClass0Consumed(fe *fontEntry, g1, g2 uint32) bool {
 				continue
 			}
 			d, ok := pp.Data.(tables.PairPosData2)
-			if !ok || d.Cov() == nil || d.ClassDef2 == nil || d.ValueFormat2 == 0 {
+			if !ok || d.Cov() == nil || d.ClassDef2 == nil {
 				continue
 			}
 			if _, cov := d.Cov().Index(tables.GlyphID(g1)); !cov {
@@ -452,6 +453,11 @@ func triage(fe *fontEntry, c *Case, got portResult, want refResult) class {
 	f := facts(fe)
 	if cl := fontLevel(fe, got); cl.id != "" {
 		return cl
+	}
+	// finding: nested lookups are cut off at level 6 (upstream 64). Precondition: a generated font
+	// whose Spec nests more than 6 contextual levels.
+	if synthNestsDeeperThan6(fe) && ev.Known(fNesting) {
+		return class{fNesting, true}
 	}
 	// unspecified: a runaway (AAT insertion loop, recursive lookups) stops when the operation /
 	// length budget is exhausted; where exactly is not specified (upstream expects "*" for such
@@ -661,6 +667,9 @@ func triage(fe *fontEntry, c *Case, got portResult, want refResult) class {
 				// that glyph is never the first glyph of the next pair (gpos2_2_font3.otf, glyphs
 				// 19 x 30 then 20: the pair (19, 20) is kerned by the port only, or by both,
 				// depending on the parity of the run); the port returns false and tries it
+				// (and the plain face: a class-0 record with non-zero values, which only generated
+				// fonts have, is applied by 6.0.0 and skipped by the port: gpos-rules seed 127592379,
+				// "ba": 1233 vs 1150)
 				for _, pr := range [][2]int{{i, j}, {j, i}} {
 					if pairClass0Consumed(fe, port[pr[0]].ID, port[pr[1]].ID) {
 						any = true
@@ -671,9 +680,40 @@ func triage(fe *fontEntry, c *Case, got portResult, want refResult) class {
 				}
 			}
 		}
+		// (with REMOVE_DEFAULT_IGNORABLES the partner of the pair may be a default ignorable that is
+		// gone from the output: its nominal glyph is tried as the second glyph of every glyph)
+		if c.Flags&8 != 0 {
+			for _, r := range c.item() {
+				if !defaultIgnorable(r) {
+					continue
+				}
+				g, _ := fe.face.NominalGlyph(r)
+				for i := range port {
+					if pairClass0Consumed(fe, port[i].ID, uint32(g)) {
+						any = true
+						for k := i; k <= i+3 && k < len(port); k++ {
+							affected[k] = true
+						}
+					}
+				}
+			}
+		}
+		// (a glyph of an affected pair that is part of a cursive attachment chain hands its offset
+		// on to the whole chain: with cursive lookups the offsets of the other glyphs are not compared)
+		cursive := false
+		for _, l := range fe.face.GPOS.Lookups {
+			for _, st := range l.Subtables {
+				if _, is := st.(tables.CursivePos); is {
+					cursive = true
+				}
+			}
+		}
 		ok := any
 		for i := range port {
-			if !affected[i] && !port[i].same(ref[i]) {
+			if affected[i] || port[i].same(ref[i]) {
+				continue
+			}
+			if !(cursive && port[i].XAdv == ref[i].XAdv && port[i].YAdv == ref[i].YAdv) {
 				ok = false
 			}
 		}
@@ -879,4 +919,33 @@ func hasAttachmentLookups(fe *fontEntry) bool {
 		}
 	}
 	return false
+}
+
+// triageFlags classifies a difference in glyph flags on a generated font ("" = unexplained).
+func synthNestsDeeperThan6(fe *fontEntry) bool {
+	if fe.synth == nil {
+		return false
+	}
+	if fe.synth.Kind == synthfont.KindChainContext {
+		return fe.synth.Depth >= 6 // Depth nested contexts + the action
+	}
+	return fe.synth.Nesting() > 6
+}
+
+func triageFlags(fe *fontEntry, c *Case, got portResult, want refResult) string {
+	if synthNestsDeeperThan6(fe) && ev.Known(fNesting) {
+		return fNesting
+	}
+	// skew:pairpos2-class-zero: 6.0.0 applies the class-0 record of PairPos format 2 (and flags the
+	// pair unsafe-to-break when a value is not zero) where the port returns false; even when the
+	// value is later overwritten (cursive attachment sets the offset) the flag stays
+	port := got.Glyphs
+	for i := range port {
+		for j := i + 1; j < len(port) && j <= i+3; j++ {
+			if pairClass0Consumed(fe, port[i].ID, port[j].ID) || pairClass0Consumed(fe, port[j].ID, port[i].ID) {
+				return sPairClass0
+			}
+		}
+	}
+	return ""
 }
